@@ -27,7 +27,18 @@ def first_of(f, name, variant):
     if len(nexts) != 1:
         return b, False, False
     nx = nexts[0]
-    fresh = any(is_call(x, "iter") and x[3] and chain(x[3][0])[0] == ("param", "self") for x in walk(b.operand_term(nx.args[0])) if x[0] == "call")
+    def builds_iterator(fn_name, depth=0):
+        """the function hands out a newly built PropertiesIter (or the result of a function that does)"""
+        g = f.bodies.get(fn_name)
+        if g is None or depth > 2:
+            return False
+        alts = phi_alts(g.local_term(0))
+        return bool(alts) and all(
+            (peel(a)[0] == "agg" and (peel(a)[2] or "").endswith("PropertiesIter")) or
+            (peel(a)[0] == "call" and peel(a)[2] in f.bodies and peel(a)[3] and chain(peel(a)[3][0])[0] == ("param", "self")
+             and builds_iterator(peel(a)[2], depth + 1)) for a in alts)
+    fresh = any(x[3] and chain(x[3][0])[0] == ("param", "self") and (is_call(x, "iter") or builds_iterator(x[2]))
+                for x in walk(b.operand_term(nx.args[0])) if x[0] == "call")
     sw = None
     for bb in b.switches:
         si = b.switch_info(bb)
